@@ -281,15 +281,24 @@ func (batch *Batch) readMessage(
 			//   to MaxBytes truncation
 			// - `batch.lastOffset` to ensure that the message format contains
 			//   `lastOffset`
-			if errors.Is(batch.err, io.EOF) && batch.msgs.lengthRemain == 0 && batch.lastOffset != -1 {
+			if errors.Is(batch.err, io.EOF) && batch.msgs.lengthRemain == 0 {
 				// Log compaction can create batches that end with compacted
 				// records so the normal strategy that increments the "next"
 				// offset as records are read doesn't work as the compacted
 				// records are "missing" and never get "read".
 				//
 				// In order to reliably reach the next non-compacted offset we
-				// jump past the saved lastOffset.
-				batch.offset = batch.lastOffset + 1
+				// jump past the saved lastOffset. A batch may also have no
+				// record left at all, in which case no message carried its
+				// last offset and we take it from the batch header. The
+				// offset must never move backwards.
+				lastOffset := batch.lastOffset
+				if batch.msgs.hasLastBatchOffset && batch.msgs.lastBatchOffset > lastOffset {
+					lastOffset = batch.msgs.lastBatchOffset
+				}
+				if lastOffset != -1 && lastOffset >= batch.offset {
+					batch.offset = lastOffset + 1
+				}
 			}
 		}
 	default:
